@@ -26,15 +26,10 @@ PROPS = "C07a"
 OWN_V = ["Ops/Slice.v", "Ops/Deriv.v", "Ops/Deriv2.v", "Ops/DerivSpec.v", "Ops/DerivStencil.v", "Ops/Causal.v",
          "Ops/DerivND.v", "Corr/CheckC07a.v", "Props/C07a.v"]
 
-# Genuine defects of the unchanged tree, decided by behaviour (see report):
-PROPOSED_KNOWN = [
-    {"id": "C07-laplacian-kind", "property": "C07", "family": "Laplacian",
-     "what": "Laplacian(kind='forward'|'backward') applies the centred stencil on every axis but the first "
-             "(laplacian.py:_calc_l2op does not pass kind to SecondDerivative for axes[1:]); "
-             "trigger: Laplacian((3,3), kind='forward').matvec(e_0)[0] is 1.0 instead of the documented 2.0",
-     "predicate": "family == Laplacian and kind != centered and len(axes) > 1 and implementation == "
-                  "(kind on axes[0], centered on axes[1:])"},
-]
+# Genuine defects of the unchanged tree handled as known findings by this part: none.
+# (The Laplacian kind defect was repaired in /repo by 5e5f222; reintroducing it is a VIOLATION.
+#  The C01 defect FirstDerivative(n=3, centered, order=5, edge=True) is recorded by C01, id C01-fd-c5-edge-n3.)
+PROPOSED_KNOWN = []
 
 KINDS = ("forward", "centered", "backward")
 CK = {"forward": "Forward", "centered": "Centered", "backward": "Backward"}
@@ -271,28 +266,6 @@ def replay(rp):
     return 1 if bad else 0
 
 
-def laplacian_coded_like_defect(p, A):
-    """behavioural test of the known defect: implementation == kind on axes[0], centred elsewhere."""
-    import pylops
-    dims = tuple(p["dims"])
-    ref = None
-    for k, (ax, w, s) in enumerate(zip(p["axes"], p["weights"], p["sampling"])):
-        # independent reference through 1-D stencil matrices (no pylops operator involved)
-        o, n, inner = oni(dims, ax)
-        M = np.zeros((n, n))
-        kind = p["kind"] if k == 0 else "centered"
-        for i in range(n):
-            if kind == "centered" and 1 <= i < n - 1:
-                M[i, i - 1:i + 2] = [1, -2, 1]
-            elif (kind == "forward" and i + 2 < n) or (kind == "centered" and p["edge"] and i == 0):
-                M[i, i:i + 3] = [1, -2, 1]
-            elif (kind == "backward" and i >= 2) or (kind == "centered" and p["edge"] and i == n - 1):
-                M[i, i - 2:i + 1] = [1, -2, 1]
-        K = np.kron(np.kron(np.eye(o), M / s ** 2), np.eye(inner)) * w
-        ref = K if ref is None else ref + K
-    return np.abs(A - ref).max() < 1e-9
-
-
 # ------------------------------------------------------------------ run
 def run(R, tier):
     t0 = time.time()
@@ -344,7 +317,6 @@ def run(R, tier):
     if CANARY not in fails or not any(z[0] == 1 and z[1:3] == [2, 3] for z in fails[CANARY]):
         raise SystemExit("C07a: canary case was not reported as failing - pipeline broken")
     fails.pop(CANARY)
-    known_ids = {k["id"] for k in common.load_known() if k.get("property") == PID}
     nviol = 0
     perfam = {}
     discharged = 0
@@ -356,15 +328,6 @@ def run(R, tier):
             nontriv.add(fam + json.dumps(p, sort_keys=True))
         fz = fails.get(cid, [])
         codes = {z[0] for z in fz}
-        if fam == "Laplacian":
-            if 1 not in codes:
-                codes.discard(4)           # patched behaviour: 'as coded today' no longer applies
-            elif p["kind"] != "centered" and len(p["axes"]) > 1 and 4 not in codes and laplacian_coded_like_defect(p, A):
-                R.known_finding(PROPOSED_KNOWN[0]["id"], "Laplacian kind=%s is not forwarded to SecondDerivative on axes[1:] "
-                                "(centred stencil used there)" % "forward|backward")
-                continue
-            else:
-                codes.discard(4)
         if not codes:
             discharged += 1
             continue
